@@ -24,6 +24,61 @@ type PropConfig struct {
 	Assumptions []string `json:"assumptions"`
 	Scope       string   `json:"scope"`
 	Unverified  []string `json:"unverified"` // named parts of the property's code left outside contracts
+	Claimed     bool     `json:"claimed"`
+}
+
+// NeutralizeUnbacked makes the assume-guarantee reasoning across properties sound:
+// a clause tagged only with properties whose checks are not claimed (and is not the
+// property being run) would be assumed at its use sites without ever being proved by
+// a registered check. Such clauses are replaced by "true" (their obligation names and
+// ordinals stay stable). Returns how many clauses were neutralized.
+func NeutralizeUnbacked(w *World, props map[string]*PropConfig, running string) int {
+	backed := map[string]bool{running: true}
+	for id, pc := range props {
+		if pc.Claimed {
+			backed[id] = true
+		}
+	}
+	tt, _ := ParseSpecExpr("true")
+	n := 0
+	fix := func(cls []*Clause) {
+		for _, cl := range cls {
+			if len(cl.Props) == 0 {
+				continue
+			}
+			ok := false
+			for _, p := range cl.Props {
+				if backed[p] {
+					ok = true
+				}
+			}
+			if !ok {
+				cl.Expr = tt
+				cl.Src = "true /* tagged only with unclaimed properties: " + cl.Src + " */"
+				n++
+			}
+		}
+	}
+	var visit func(c *Contract)
+	visit = func(c *Contract) {
+		fix(c.Requires)
+		fix(c.Ensures)
+		fix(c.Lemmas)
+		fix(c.LeafEnsures)
+		for _, l := range c.Loops {
+			fix(l.Invariants)
+		}
+		for _, a := range c.At {
+			fix(a)
+		}
+		for _, pc := range c.ParamSpec {
+			visit(pc)
+		}
+	}
+	for _, c := range w.Spec.Contracts {
+		visit(c)
+	}
+	return n
 }
 
 type KnownFinding struct {
@@ -97,6 +152,7 @@ func runDriver(args []string) int {
 		fmt.Fprintln(os.Stderr, "load:", err)
 		return 2
 	}
+	NeutralizeUnbacked(w, props, prop)
 	ApplySchemas(w, pc.Schemas, prop)
 	specFns, err := w.RenderSpecFns()
 	if err != nil {
